@@ -121,6 +121,36 @@ func (c *c05Case) String() string {
 	return fmt.Sprintf("%s ; desired default=%d archive=%d ; hash=%s", c.Layout.String(), c.Desired["default"], c.Desired["archive"], c.Hash)
 }
 
+// deviations is the number of non-default attributes of the layout (the enumeration bound).
+func (l *c05Layout) deviations() int {
+	n := 0
+	for s, ms := range l.Mounts {
+		if l.SrvRO[s] {
+			n++
+		}
+		for _, m := range ms {
+			if m.RO {
+				n++
+			}
+			if l.Devs[m.Dev].ID != "" {
+				n++
+			}
+		}
+	}
+	for _, d := range l.Devs {
+		if d.Repl != 1 {
+			n++
+		}
+		if d.Archive {
+			n++
+		}
+		if d.State >= c05Old2 {
+			n++
+		}
+	}
+	return n
+}
+
 func (l *c05Layout) nMounts() int {
 	n := 0
 	for _, ms := range l.Mounts {
@@ -638,9 +668,9 @@ type c05Gen struct {
 }
 
 func (g *c05Gen) all() {
-	for nsrv := 1; nsrv <= 4; nsrv++ {
-		// shapes ordered by total number of mounts
-		for extra := 0; extra <= nsrv; extra++ {
+	for nsrv := 1; nsrv <= c05MaxSrv; nsrv++ {
+		// shapes ordered by total number of mounts; above 4 services only single-mount services
+		for extra := 0; extra <= nsrv && (nsrv <= 4 || extra == 0); extra++ {
 			for mask := 0; mask < 1<<uint(nsrv); mask++ {
 				if c05popcount(mask) != extra {
 					continue
@@ -671,6 +701,8 @@ func (g *c05Gen) all() {
 		}
 	}
 }
+
+const c05MaxSrv = 6
 
 func c05popcount(x int) int {
 	n := 0
@@ -900,7 +932,8 @@ func TestVerifC05(t *testing.T) {
 			r.AddExtra("violating_cases:"+s, sigCount[s])
 		}
 	}()
-	report := func(c *c05Case, b *c05Built, out *c05Out, v *c05Verdict, idx int64, dev int) {
+	report := func(c *c05Case, b *c05Built, out *c05Out, v *c05Verdict, idx int64) {
+		dev := c.Layout.deviations()
 		first := out.String()
 		// deterministic?  (the same case on freshly built balancers: map iteration order over
 		// KeepServices differs between runs).  Done for the first cases of every clause and every
@@ -959,7 +992,7 @@ func TestVerifC05(t *testing.T) {
 		r.Outcome(out.String())
 		r.Sample(replay.String() + " => " + out.String())
 		if len(v.Viols) > 0 {
-			report(&replay, b, &out, &v, 0, 0)
+			report(&replay, b, &out, &v, 0)
 		}
 		return
 	}
@@ -968,21 +1001,25 @@ func TestVerifC05(t *testing.T) {
 	g := &c05Gen{maxRepl: 2, maxDesired: 3}
 	nhash := 2
 	// deviation bound by [number of services][total number of mounts]; -1: shape not enumerated
-	bound := [5][9]int{
+	bound := [c05MaxSrv + 1][9]int{
 		1: {1: 9, 2: 9},
 		2: {2: 9, 3: 4, 4: 3},
 		3: {3: 4, 4: 4, 5: 2, 6: 1},
 		4: {4: 3, 5: 2, 6: 1, 7: 1, 8: 1},
+		5: {5: -1},
+		6: {6: -1},
 	}
 	if thorough {
 		g.maxRepl = 3
 		g.maxDesired = 4
 		nhash = 3
-		bound = [5][9]int{
+		bound = [c05MaxSrv + 1][9]int{
 			1: {1: 9, 2: 9},
 			2: {2: 9, 3: 6, 4: 4},
 			3: {3: 6, 4: 4, 5: 3, 6: 3},
 			4: {4: 4, 5: 3, 6: 2, 7: 2, 8: 2},
+			5: {5: 3}, // five and six single-mount services
+			6: {6: 2},
 		}
 	}
 	if s := os.Getenv("VERIF_C05_BOUND"); s != "" { // per total mounts 1..8, e.g. "9,9,4,3,2,2,1,1"
@@ -994,7 +1031,7 @@ func TestVerifC05(t *testing.T) {
 		for m, f := range strings.Split(s, ",") {
 			k, _ := strconv.Atoi(f)
 			for n := 1; n <= 4; n++ {
-				if m+1 >= n && m+1 <= 2*n {
+				if m+1 >= n && m+1 <= 2*n && m+1 < 9 {
 					bound[n][m+1] = k
 				}
 			}
@@ -1005,7 +1042,7 @@ func TestVerifC05(t *testing.T) {
 	g.budget = func(nsrv, nm int) int { return bound[nsrv][nm] }
 	countOnly := os.Getenv("VERIF_C05_COUNT") != ""
 	r.Extra("hashes", strings.Join(g.hashes, ","))
-	r.Extra("deviation_bound_by_services_1_to_4_and_mounts_0_to_8", fmt.Sprint(bound[1:]))
+	r.Extra("deviation_bound_by_services_1_to_6_and_mounts_0_to_8", fmt.Sprint(bound[1:]))
 
 	// outcome classes: what the physical state was x what balanceBlock did
 	stateNames := []string{"unreferenced", "unreferenced,no-replica", "sufficient", "underreplicated", "no-replica"}
@@ -1163,7 +1200,7 @@ func TestVerifC05(t *testing.T) {
 					}
 					if len(v.Viols) > 0 {
 						c := c05Case{Layout: *l, Desired: desired, Hash: h}
-						report(&c, b, &out, &v, idx, dev)
+						report(&c, b, &out, &v, idx)
 					}
 				}
 			}
